@@ -177,7 +177,8 @@ static ssize_t localPush(MPT_INTERFACE(output) *out, size_t len, const void *src
 			return MPT_ERROR(BadArgument);
 		}
 		ret = out->_vptr->push(out, len, src);
-		if (ret >= 0 && !len) {
+		/* passed message is finished or abandoned */
+		if (ret >= 0 && (!len || !src)) {
 			lo->hist.info.state &= ~MPT_OUTFLAG(Remote);
 		}
 		return ret;
